@@ -52,7 +52,22 @@ def _unparsed(o):
     return isinstance(t, TlsExtensionType) or (isinstance(t, V.SEnum) and t.cls is TlsExtensionType)
 
 
+def _empty_label(o):
+    labels = o.f.get('labels')
+    if not isinstance(labels, (list, tuple)):
+        return False
+    conds = []
+    for l in labels:
+        if isinstance(l, V.SStr):
+            conds.append(l.seq.n == 0)
+        elif isinstance(l, str):
+            if not l:
+                return True
+    return z3.Or(*conds) if conds else False
+
+
 REGIONS = {
+    'dns-name-empty-label': (('DnsNameUncompressed',), _empty_label),
     'tpkt-version-not-3': (('TPKT',), _tpkt),
     'padding-negative-length': (('TlsExtensionPadding',), _padding),
     'openvpn-remote-session-id-without-acks': (('OpenVpnPacketAckV1', 'OpenVpnPacketControlV1', 'OpenVpnPacketHardResetServerV2'), _openvpn),
@@ -118,6 +133,11 @@ def _rt(o):
     return dict(reproduced=False, observed='round trip holds')
 
 
+def w_empty_label():
+    from cryptoparser.dnsrec.record import DnsNameUncompressed
+    return _rt(DnsNameUncompressed.convert('example.com.'))
+
+
 def w_tpkt():
     from cryptoparser.tls.rdp import TPKT
     return _rt(TPKT(version=2, message=b'ab'))
@@ -178,6 +198,7 @@ def w_cotp():
 
 
 WITNESSES = {
+    'dns-name-empty-label': w_empty_label,
     'cotp-reference-order': w_cotp,
     'tpkt-version-not-3': w_tpkt,
     'tpkt-version-not-3/prefix': w_tpkt_prefix,
